@@ -251,7 +251,7 @@ func genC17(rt *rapid.T) c17Case {
 			// an operator's migration script damages the exported genesis: the tunnel module account's balance entry is
 			// dropped (or one unit short) while the tunnel module's own section still records the deposits; a node must
 			// refuse to start from it
-			op = c17Op{K: "badimport", Mode: gen.OneOf(rt, "bimode", "zero", "zero", "minus1")}
+			op = c17Op{K: "badimport", T: gen.Uniform(rt, "tun", 3), Mode: gen.OneOf(rt, "bimode", "zero", "zero", "minus1", "norecords", "norecords")}
 		default:
 			op = c17Op{K: "end", Dt: gen.OneOf(rt, "dt", 1, 1, 1, 5, 61)}
 		}
@@ -957,11 +957,21 @@ func runC17(c c17Case) *pbt.Verdict {
 				continue
 			}
 			ierr := ch.TryImportMutated(func(state map[string]json.RawMessage) error {
+				if o.Mode == "norecords" {
+					// the deposit records of one tunnel are lost (its TotalDeposit stays) and the module account holds
+					// correspondingly less: the tunnel's total is no longer the sum of its depositors' records
+					for d := 0; d < len(tunnels); d++ {
+						if id := (o.T+d)%len(tunnels) + 1; tunnels[id-1].total() != (amt3{}) {
+							return c17DropDepositRecords(state, moduleAddr.String(), uint64(id))
+						}
+					}
+					return fmt.Errorf("no tunnel with deposits")
+				}
 				return c17DropModuleBalance(state, moduleAddr.String(), o.Mode == "minus1")
 			})
 			switch {
 			case ierr == nil:
-				v.Failf("C17/unbacked-genesis-accepted", "a genesis whose tunnel section records deposits of %v while the tunnel module account holds %s less than that (%s) was imported", recorded, map[bool]string{true: "one unit", false: "everything"}[o.Mode == "minus1"], o.Mode)
+				v.Failf("C17/unbacked-genesis-accepted", "a genesis whose tunnel section records deposits of %v while the tunnel module account holds %s less than that (%s) was imported", recorded, map[string]string{"minus1": "one unit", "zero": "everything", "norecords": "one tunnel's deposits (whose records were dropped as well)"}[o.Mode], o.Mode)
 				return v
 			case strings.HasPrefix(ierr.Error(), "harness:"):
 				v.Failf("harness", "badimport: %v", ierr)
@@ -1430,4 +1440,129 @@ func c17DropModuleBalance(state map[string]json.RawMessage, addr string, oneUnit
 		return err
 	}
 	return nil
+}
+
+// c17DropDepositRecords edits an exported genesis: every deposit record of tunnel id is removed from the tunnel section
+// (the tunnel keeps its total_deposit) and the same coins are taken from the module account's bank balance and the supply.
+func c17DropDepositRecords(state map[string]json.RawMessage, addr string, id uint64) error {
+	var tun map[string]json.RawMessage
+	if err := json.Unmarshal(state["tunnel"], &tun); err != nil {
+		return err
+	}
+	var deps []map[string]json.RawMessage
+	if err := json.Unmarshal(tun["deposits"], &deps); err != nil {
+		return err
+	}
+	removed := map[string]*big.Int{}
+	var keep []map[string]json.RawMessage
+	for _, d := range deps {
+		var tid string
+		if err := json.Unmarshal(d["tunnel_id"], &tid); err != nil {
+			return err
+		}
+		if tid != fmt.Sprint(id) {
+			keep = append(keep, d)
+			continue
+		}
+		var amt []struct{ Denom, Amount string }
+		if err := json.Unmarshal(d["amount"], &amt); err != nil {
+			return err
+		}
+		for _, cn := range amt {
+			x, ok := new(big.Int).SetString(cn.Amount, 10)
+			if !ok {
+				return fmt.Errorf("bad amount %q", cn.Amount)
+			}
+			if removed[cn.Denom] == nil {
+				removed[cn.Denom] = new(big.Int)
+			}
+			removed[cn.Denom].Add(removed[cn.Denom], x)
+		}
+	}
+	if len(removed) == 0 {
+		return fmt.Errorf("tunnel %d has no deposit records in the export", id)
+	}
+	if keep == nil {
+		keep = []map[string]json.RawMessage{}
+	}
+	var err error
+	if tun["deposits"], err = json.Marshal(keep); err != nil {
+		return err
+	}
+	if state["tunnel"], err = json.Marshal(tun); err != nil {
+		return err
+	}
+	return c17ReduceBank(state, addr, removed)
+}
+
+// c17ReduceBank lowers the bank balance of addr and the supply by the given coins.
+func c17ReduceBank(state map[string]json.RawMessage, addr string, removed map[string]*big.Int) error {
+	type coin struct {
+		Denom  string `json:"denom"`
+		Amount string `json:"amount"`
+	}
+	var bank map[string]json.RawMessage
+	if err := json.Unmarshal(state["bank"], &bank); err != nil {
+		return err
+	}
+	var balances []struct {
+		Address string `json:"address"`
+		Coins   []coin `json:"coins"`
+	}
+	if err := json.Unmarshal(bank["balances"], &balances); err != nil {
+		return err
+	}
+	var supply []coin
+	if err := json.Unmarshal(bank["supply"], &supply); err != nil {
+		return err
+	}
+	sub := func(cs []coin) ([]coin, error) {
+		var out []coin
+		for _, cn := range cs {
+			if r, ok := removed[cn.Denom]; ok {
+				x, ok2 := new(big.Int).SetString(cn.Amount, 10)
+				if !ok2 || x.Cmp(r) < 0 {
+					return nil, fmt.Errorf("%s: %s below the removed amount %s", cn.Denom, cn.Amount, r)
+				}
+				x.Sub(x, r)
+				if x.Sign() == 0 {
+					continue
+				}
+				cn.Amount = x.String()
+			}
+			out = append(out, cn)
+		}
+		return out, nil
+	}
+	found := false
+	out := balances[:0]
+	for _, b := range balances {
+		if b.Address == addr {
+			found = true
+			cs, err := sub(b.Coins)
+			if err != nil {
+				return err
+			}
+			if len(cs) == 0 {
+				continue
+			}
+			b.Coins = cs
+		}
+		out = append(out, b)
+	}
+	if !found {
+		return fmt.Errorf("no balance entry for %s", addr)
+	}
+	newSupply, err := sub(supply)
+	if err != nil {
+		return err
+	}
+	if bank["balances"], err = json.Marshal(out); err != nil {
+		return err
+	}
+	if bank["supply"], err = json.Marshal(newSupply); err != nil {
+		return err
+	}
+	state["bank"], err = json.Marshal(bank)
+	return err
 }
